@@ -1,6 +1,7 @@
 (** C13 — membership: no false deaths on a healthy network, real failures are detected.
     Only statements; every proof is in NodeProofs.v / PhiProofs.v / NetProofs.v. *)
-From HS Require Import Base.Prelude C13.Model C13.PhiModel C13.Net C13.NodeProofs C13.PhiProofs C13.NetProofs.
+From HS Require Import Base.Prelude C13.Model C13.PhiModel C13.Net C13.NetCheck C13.NodeProofs C13.PhiProofs
+  C13.NetProofs C13.NetCheckProofs C13.ProbeOrder C13.NetCrash C13.NetCrashCheck.
 From Coq Require Import QArith.
 Local Open Scope Z_scope.
 
@@ -98,3 +99,76 @@ Print Assumptions c13_no_false_dead_mesh.
 Example cfg_ok_satisfiable :
   cfg_ok (fun i => mkCfg i 1000000000 500000000 5000000000 3 true) 200000000.
 Proof. split; [lia|]. intros n; cbn. lia. Qed.
+
+(** Tie of the cluster relation to the implementation: a recorded run of a real cluster (the
+    handler calls of all nodes in engine order with the observed message delays) that the
+    checker [ok_world] accepts is a path of [Net.wstep] from the mesh start configuration. *)
+Theorem c13_recorded_run_is_path :
+  forall cl d n probe ords gs,
+    ok_world (cl, d, n, probe, ords, gs) = true ->
+    exists w, reach (fun i => nth (Z.to_nat i) cl (mkCfg i 0 0 0 0 true)) d
+                    (mesh_world n probe (fun i => nth (Z.to_nat i) ords [])) w
+              /\ wcheck (fun i => nth (Z.to_nat i) cl (mkCfg i 0 0 0 0 true)) d
+                        (mesh_world n probe (fun i => nth (Z.to_nat i) ords [])) gs = Some w.
+Proof. exact ok_world_sound. Qed.
+Print Assumptions c13_recorded_run_is_path.
+
+(** Detection, probe order: whatever the shuffles, a member that is not DEAD in a node's view
+    is the probe target of one of that node's next 2 m probe ticks (m = number of non-DEAD
+    members in its probe order) — so a stopped member's ack timeout (c13_timeout_suspects)
+    is reached within two rounds. *)
+Theorem c13_probed_within_two_rounds :
+  forall ms ord idx shufs T,
+    0 <= idx -> In T (filter (not_dead ms) ord) ->
+    Forall (fun s => is_perm s (filter (not_dead ms) ord) = true) shufs ->
+    (2 * length (filter (not_dead ms) ord) <= length shufs)%nat ->
+    In T (firstn (2 * length (filter (not_dead ms) ord)) (probes ms ord idx shufs)).
+Proof. exact probed_within_two_rounds. Qed.
+Print Assumptions c13_probed_within_two_rounds.
+
+(** the hypotheses are satisfiable, and the bound 2 m - 1 is reached: T = 1 was just probed,
+    the reshuffle puts it last *)
+Example probed_example :
+  let ms := members (init_state [1; 2; 3] [1; 2; 3]) in
+  probes ms [1; 2; 3] 1 [[]; []; [3; 2; 1]; []; []] = [2; 3; 3; 2; 1].
+Proof. vm_compute. reflexivity. Qed.
+
+(** Detection through phi: at a probe tick, an ALIVE member for which [is_available] is false
+    (or that was never heard of while the threshold is not positive) is SUSPECT afterwards. *)
+Theorem c13_tick_phi_suspects :
+  forall c now st avail shuf T m,
+    find_member T (members st) = Some m -> m_state m = Alive ->
+    available c m (avail_at (members st) avail T) = false ->
+    find_member T (members (fst (step c now st (ITick avail shuf)))) = Some (set_state Suspect m).
+Proof. exact tick_phi_suspects. Qed.
+Print Assumptions c13_tick_phi_suspects.
+
+(** Accuracy with stopping members.  Members may stop for good at arbitrary moments
+    ([cs_crash], any set, any timing); every message is still delivered within [d] (to a
+    stopped member it is dropped).  In every reachable configuration, whoever is DEAD in
+    anybody's view has stopped: no member ever marks a live member DEAD.  The same for "dead"
+    updates (queued or in flight) and for suspicion timeouts. *)
+Theorem c13_only_stopped_members_dead :
+  forall (cfgs : Z -> cfg) (d : Z), cfg_ok cfgs d ->
+  forall (w0 w : world) (cr : list Z), init_ok w0 -> creach cfgs d w0 (w, cr) ->
+    (forall n m, In m (members (nodes w n)) -> m_state m = Dead -> In (m_name m) cr) /\
+    (forall n u, In u (pend (nodes w n)) -> u_kind u = 1 -> In (u_member u) cr) /\
+    (forall e, In e (pool w) ->
+       match p_kind e with
+       | PSusp t => In t cr
+       | PPing _ us | PAck _ us => forall u, In u us -> u_kind u = 1 -> In (u_member u) cr
+       | _ => True
+       end).
+Proof. exact only_stopped_members_dead. Qed.
+Print Assumptions c13_only_stopped_members_dead.
+
+(** ... and the tie of that relation to runs in which the harness stops a member. *)
+Theorem c13_recorded_crash_run_is_path :
+  forall cl d n probe ords gs,
+    ok_cworld (cl, d, n, probe, ords, gs) = true ->
+    exists c, creach (fun i => nth (Z.to_nat i) cl (mkCfg i 0 0 0 0 true)) d
+                     (mesh_world n probe (fun i => nth (Z.to_nat i) ords [])) c
+              /\ ccheck (fun i => nth (Z.to_nat i) cl (mkCfg i 0 0 0 0 true)) d
+                        (mesh_world n probe (fun i => nth (Z.to_nat i) ords []), []) gs = Some c.
+Proof. exact ok_cworld_sound. Qed.
+Print Assumptions c13_recorded_crash_run_is_path.
